@@ -95,14 +95,20 @@ G("from_pdu", impl=r"impl DataPDU", props=["C06"], keys=True,
   hints=keep("result"))
 G("from_fp", impl=r"impl FastPathUpdate", props=["C06", "C10"], keys=True, attrs=["#[verifier::rlimit(60)]"],
   requires=["has_key(fast_path.fields(), \"updateHeader\"@)", "has_key(fast_path.fields(), \"updateData\"@)"],
-  ensures=[("C06,C10", "bitmap-layout", "r is Ok && r->Ok_0.fp_type is FastpathUpdatetypeBitmap ==> fp_bitmap_fields(r->Ok_0.message.fields())")],
+  ensures=[("C06,C10", "bitmap-layout", "r is Ok && r->Ok_0.fp_type is FastpathUpdatetypeBitmap ==> fp_bitmap_fields(r->Ok_0.message.fields())"),
+           # MS-RDPBCGR 2.2.9.1.2.1: updateCode is the low 4 bits of updateHeader (the kind that is dispatched on is exactly that code)
+           ("C10,C06", "update-code-is-the-low-nibble", """r is Ok ==> ({ let f = fast_path.fields(); let h = f[first_key(f, "updateHeader"@)].1;
+                exists|v: u8| #[trigger] dt_matches(DataType::U8(v), h) && FastPathUpdateType::from_repr(v & 0xf) == Some(r->Ok_0.fp_type) })""")],
   hints=keep("result", """if result.fp_type is FastpathUpdatetypeBitmap {
         lemma_read_keeps_elements(m0->Comp_0[2].1, result.message.fields()[2].1);
         let elems = result.message.fields()[2].1->Arr_0;
         assert forall|i: int| 0 <= i < elems.len() implies (#[trigger] elems[i]) is Comp && bitmap_data_fields(elems[i]->Comp_0) by {
             lemma_read_keeps_layout(bitmap_data_view(), elems[i]);
             lemma_read_keeps_dyn(bitmap_data_view()->Comp_0[7].1, elems[i]->Comp_0[7].1);
-        } }"""))
+        } }""") + [
+      (r"let fp_update_type = ", 1, """proof { let f = fast_path.fields(); let h = f[first_key(f, "updateHeader"@)].1;
+            assert(exists|v: u8| #[trigger] dt_matches(DataType::U8(v), h) && FastPathUpdateType::from_repr(v & 0xf) == Some(fp_update_type)); }"""),
+      (r"\.message\.read\(&mut Cursor::new", 1, "proof { assert(result.fp_type == fp_update_type); }", "before")])
 
 # ---- client
 G("new", impl=r"impl Client", props=["C12"],
@@ -113,17 +119,21 @@ G("read_demand_active_pdu", impl=r"impl Client", props=["C06", "C12", "C03"], ke
          (r"for capability_set in", 1, "let ghost caps = pdu.message.fields()[6].1->Arr_0;", "before")],
   # C03 "carries the identifiers the server assigned": the share id kept for the confirm-active / finalization PDUs is the shareId field of
   # THIS demand-active (every activation, not only the first one), relative to the parsed structure
-  claims=[(r"return Ok\(true\)", 1, """proof {
+  claims=[(r"return Ok\(false\)", 1, "proof { assert(!(pdu.pdu_type is PdutypeDemandactivepdu)); }", "before", "C12,C03", "every-demand-active-is-answered"),
+          (r"return Ok\(true\)", 1, """proof {
             assert(pdu.message.fields()[0].0 == "shareId"@ && pdu.message.fields()[0].1 is U32);
             assert(self.share() == Some(pdu.message.fields()[0].1->U32_0)); }""", "before", "C03,C12", "share-id-is-this-demand-actives")],
   loops={1: """invariant
             it.seq().len() == caps.len(), forall|k: int| 0 <= k < it.seq().len() ==> (#[trigger] it.seq()[k]).fview() == caps[k], cap_sets_ok(caps),
             self.st() == old(self).st() && self.same_config(old(self)) && self.share() == old(self).share(),"""})
 G("read_synchronize_pdu", impl=r"impl Client", props=["C06", "C12"], keys=True, ensures=STATE_FRAME + [(None, "share", "final(self).share() == old(self).share()")])
-G("read_control_pdu", impl=r"impl Client", props=["C06", "C12"], keys=True, ensures=STATE_FRAME + [(None, "share", "final(self).share() == old(self).share()")])
+G("read_control_pdu", impl=r"impl Client", props=["C06", "C12", "C03"], keys=True, ensures=STATE_FRAME + [(None, "share", "final(self).share() == old(self).share()")],
+  # C12 "advance only on the expected PDU": a control PDU is accepted (Ok(true)) only when its action field is the expected action
+  claims=[(r"Ok\(true\)\s*\}\s*$", 1, """proof { let f = data_pdu.message.fields(); let a = f[first_key(f, "action"@)].1;
+            assert(a is U16 && a->U16_0 == action as u16); }""", "before", "C12,C03", "control-accepted-only-with-the-expected-action")])
 G("read_font_map_pdu", impl=r"impl Client", props=["C06", "C12"], keys=True, ensures=STATE_FRAME + [(None, "share", "final(self).share() == old(self).share()")])
 # rule R6: Verus' for-loops do not support `continue`: the loop over the parsed PDUs is spelled as an index loop (increment first, same order, same elements)
-G("read_data_pdu", impl=r"impl Client", props=["C06", "C12"], keys=True,
+G("read_data_pdu", impl=r"impl Client", props=["C06", "C12", "C11"], keys=True,
   body_sub=[(r"for pdu in message\.inner\(\) \{", "let __items = message.inner(); let mut __i: usize = 0; while __i < __items.len() { let pdu = &__items[__i]; __i += 1;")],
   closures={1: dict(params="", ret="-> (c: Component)", spec="ensures c.mv() == share_control_view(0x11, 0, Seq::empty())")},
   loops={1: """invariant __i <= __items.len(),
@@ -137,7 +147,7 @@ G("read_data_pdu", impl=r"impl Client", props=["C06", "C12"], keys=True,
   # rule R2 drops `println!(.., cast!(DataType::U32, data_pdu.message["errorInfo"])?)` with its argument: the dropped index / cast are checked here instead
   claims=[(r"Ok\(\(\)\)\s*\}\s*$", 1, """proof {
             assert(any_deactivate_all(__items@, __items@.len() as int) ==> self.st() is DemandActivePDU);
-            assert(!any_deactivate_all(__items@, __items@.len() as int) ==> self.st() == old(self).st()); }""", "before", "C12", "deactivate-all-always-resets"),
+            assert(!any_deactivate_all(__items@, __items@.len() as int) ==> self.st() == old(self).st()); }""", "before", "C12,C11", "deactivate-all-always-resets"),
           (r"match data_pdu\.pdu_type \{", 1, """proof { lemma_keys(); let f = data_pdu.message.fields();
                         assert(data_pdu.pdu_type is Pdutype2SetErrorInfoPdu ==> has_key(f, "errorInfo"@) && fld(f, "errorInfo"@) is U32); }""", "before", "C06", "dropped-diagnostic-index-safe")],
   hints=[(r"let __items = message\.inner\(\);", 1, "proof { assert(message.mv() is Arr); assert forall|k: int| 0 <= k < __items@.len() implies same_shape(share_control_view(0x11, 0, Seq::empty()), (#[trigger] __items@[k]).fview()) by { assert(message.mv()->Arr_0[k] == __items@[k].fview()); } }", "atend"),
